@@ -569,7 +569,7 @@ class Gen(object):
 
     def attrs(self, lang_ok=True, plain=False, code_ok=True):
         """`plain`: no attribute that the configuration translates; `code_ok`: gettext calls may
-        occur in interpolated values (not on excluded elements: finding C19-excluded-attr-code)"""
+        occur in interpolated values"""
         r = self.rng
         out = []
         names = set()
@@ -737,16 +737,11 @@ class Gen(object):
             return ['e', ctag, self.attrs(lang_ok=False), [['i18n:choose', value]], kids]
         return ['d', 'i18n:choose', [['numeral', nv], ['params', pv]], kids]
 
-    @staticmethod
-    def nocode(attrs):
-        return [[n, [p if p[0] == 't' or '(' not in p[1] else ['x', 's1'] for p in parts]] for n, parts in attrs]
-
     def plain_elem(self, depth, excl):
-        attrs = self.attrs(code_ok=not excl)
+        # gettext calls in the attributes of excluded elements are extracted (fix 3756726)
+        attrs = self.attrs()
         tag = self.rng.choice(TAGS)
         ex = excl or self.has_lang(attrs) or tag in self.config['ignore_tags']
-        if ex:
-            attrs = self.nocode(attrs)
         return tag, attrs, ex
 
     def block(self, depth, excl):
@@ -784,8 +779,8 @@ class Gen(object):
             return ['e', tag, attrs, [['i18n:comment', self.words()]], self.blocks(depth - 1, ex)]
         if q < 0.73:
             tag = r.choice(IGNORED)
-            kids = [self.text()] if r.random() < 0.8 else [self.text(), ['e', 'b', self.attrs(code_ok=False), [], [self.text()]]]
-            return ['e', tag, self.attrs(code_ok=False), [], kids]
+            kids = [self.text()] if r.random() < 0.8 else [self.text(), ['e', 'b', self.attrs(), [], [self.text()]]]
+            return ['e', tag, self.attrs(), [], kids]
         if depth > 0:
             tag, attrs, ex = self.plain_elem(depth, excl)
             return ['e', tag, attrs, self.pydirs(), self.blocks(depth - 1, ex)]
